@@ -74,7 +74,7 @@ var nontrivialRules = map[string]func(r *Runner) bool{
 	"C14": func(r *Runner) bool { return r.Cnt["configs_compared"] > 0 && r.Cnt["transcript_entries"] > 5 },
 	"C15": func(r *Runner) bool { return r.Cnt["puts"]+r.Cnt["batch_ops"] > 2 },
 	"C17": func(r *Runner) bool {
-		return r.Cnt["stat_checks"] > 2 && r.Cnt["overwrites"]+r.Cnt["deletes_present"] > 0
+		return (r.Cnt["stat_checks"] > 2 && r.Cnt["overwrites"]+r.Cnt["deletes_present"] > 0) || (r.Cnt["stat_checks"] > 1 && r.Cnt["sched_switches"] > 1)
 	},
 	"C18": func(r *Runner) bool { return r.Cnt["hint_checks"] > 0 && r.Cnt["hint_entries"] > 1 },
 	"C16": func(r *Runner) bool {
@@ -101,7 +101,7 @@ var NontrivialRuleText = map[string]string{
 	"C13": "case reached >=2 policy-invariant evaluations (Always / Threshold / Sync batch / Sync()/Close()); a fifth of the runs: several concurrent callers, judged per call on the journal; distinct = distinct case hash",
 	"C14": "one program of >5 transcript entries executed under >=2 configurations; distinct = distinct hash of (program, configuration tuple)",
 	"C15": "case made >=3 writes through the reused, poisoned caller buffers; distinct = distinct case hash",
-	"C17": "case has >=3 exact Stat recomputations and >=1 overwrite or delete; distinct = distinct case hash",
+	"C17": "case has >=3 exact Stat recomputations and >=1 overwrite or delete (or, 15% of the runs: concurrent clients, Stat recomputed at quiescence and after the restart); distinct = distinct case hash",
 	"C18": "case has >=1 hint file with >=2 entries compared entry by entry with the merged files; distinct = distinct case hash",
 	"C16": "run has >=1 successful Open and >=1 rejected or failing Open; distinct = distinct hash of (party programs, explicit schedule)",
 	"C19": "command sequence with >5 judged commands; distinct = distinct hash of the executed case (commands, keys, clock steps)",
